@@ -436,6 +436,16 @@ Definition m_tree (t : tree) (p : path) : option res :=
   if is_dir_b t p then match m_tree_names (rm_fuel t) t p with Some l => Some (RNames l) | None => None end
   else Some (RErr EInvalid).
 
+(* ---- MkDirAll on a back end whose MkdirAll CREATES the directory and still reports an error (a creation race lost on a back end
+   that is not atomic, or an error reported after the creation): Exists -> nil; back-end MkdirAll; then — a fact — the re-check
+   `if err != nil && fs.Exists(dir) { err = nil }`, or the back end's error ('already exists') as it comes ---- *)
+Definition m_mkdir_raced (fa : facts) (t : tree) (p : path) : res * tree :=
+  if fst (m_exists t p) then (ROk, t)
+  else match b_mkdirall t p with
+       | Some t' => (if f_mkdirall_rechecks fa then ROk else RErr EExists, t')
+       | None => (RErr EOther, t)
+       end.
+
 (* ---- calls on the empty name: Stat / GenericOpen / OpenFile guarded by checkPathIsNotEmpty, or not (facts).  Without the
    guard a back end may resolve "" to its own root (afero MemMapFs does): modelled as "the root directory". ---- *)
 Definition m_exec_empty (fa : facts) (t : tree) (c : call) : option mres :=
